@@ -53,7 +53,8 @@ def run(ctx, report):
     r_p = report.rule("R18-pure", floor=2000, what="merge_dicts leaves both operands unmodified")
     it = fresh_interp(ctx)
     mf = regmod.defs["merge_dicts"]
-    docs = list(docs_over(["K1", "K2"], VALUES))
+    values = VALUES + ([0, "", False, {"x": {"deep": 1}}] if ctx.tier == "thorough" else [])
+    docs = list(docs_over(["K1", "K2"], values))
     bad_m = bad_p = None
     n = 0
     for left in docs:
